@@ -664,6 +664,45 @@ def check_row_order_large(scn):
     return 2, True, None
 
 
+def check_row_order_coarse(scn):
+    """kdq-tree with a coarse minimum cell size (cutpoint_proportion_lbound = 0.1 ...) on wide-range features: the cells, the
+    leaf divergence and the KdqTreeBatch decisions must not depend on the order of the rows of the reference / test batch"""
+    from menelaus.partitioners import KDQTreePartitioner
+    from menelaus.data_drift import KdqTreeBatch
+    seed, rows, lb, cu = scn["seed"], scn["rows"], scn["lb"], scn["count_ubound"]
+    rng = np.random.RandomState(seed)
+    scale = np.array([1000.0, 40.0, 3.0])[:scn.get("d", 3)]
+    ref = rng.rand(rows, len(scale)) * scale
+    tests = [rng.rand(rows, len(scale)) * scale + (0.15 * i) * scale for i in range(3)]
+    perm = lambda a: a[rng.permutation(len(a))]
+    out = []
+    for permute in (False, True):
+        r = perm(ref) if permute else ref
+        kp = KDQTreePartitioner(count_ubound=cu, cutpoint_proportion_lbound=lb)
+        kp.build(r)
+        t = perm(tests[1]) if permute else tests[1]
+        kp.fill(t, "t", reset=True)
+        part = (len(kp.leaves), sorted(kp.leaf_counts("build")), float(kp.kl_distance("build", "t")))
+        det = KdqTreeBatch(count_ubound=cu, cutpoint_proportion_lbound=lb, bootstrap_samples=25)
+        np.random.seed(seed)
+        det.set_reference(r)
+        dec = []
+        for i, b in enumerate(tests):
+            np.random.seed(seed * 7 + i)
+            det.update(perm(b) if permute else b)
+            dec.append(det.drift_state)
+        out.append((part, dec))
+    (p1, d1), (p2, d2) = out
+    if p1[0] != p2[0] or p1[1] != p2[1]:
+        return 2, True, "kdq-tree (cutpoint_proportion_lbound=%r): permuting the rows of the build data changes the cells: %d leaves %r... vs %d leaves %r..." % (
+            lb, p1[0], p1[1][:6], p2[0], p2[1][:6])
+    if not math.isclose(p1[2], p2[2], rel_tol=1e-9, abs_tol=1e-12):
+        return 2, True, "kdq-tree (cutpoint_proportion_lbound=%r): row permutation changes the leaf divergence: %r vs %r" % (lb, p1[2], p2[2])
+    if d1 != d2:
+        return 2, True, "KdqTreeBatch (cutpoint_proportion_lbound=%r): row permutation changes the decisions: %r vs %r" % (lb, d1, d2)
+    return 2, True, None
+
+
 def check_row_order_replay(scn):
     """NN-DVI with numpy seeded ONCE for the whole sequence, on a history that replays the reference batch verbatim: the
     run on row-permuted batches must take the same decisions (any shortcut that depends on the row order, or that changes
@@ -773,6 +812,57 @@ def check_no_alias(scn):
     return ev, any(s[0] is not None for s in ref), None
 
 
+def check_no_alias_reref(scn):
+    """batch detectors that take a reference: the user re-references the same detector in mid-stream (a second, third
+    set_reference call) and overwrites the array it passed; a twin that was given private copies must stay in step"""
+    name, variant, seed, n, mode = scn["det"], scn["variant"], scn["seed"], scn["n"], scn["mode"]
+    if C.DETECTORS[name]["kind"] != "batch":
+        return 0, False, None
+    st = C.stream(name, seed, n)
+
+    def as_mode(x):
+        a = np.array(x.values if isinstance(x, pd.DataFrame) else x, dtype=float)
+        if mode == "f":
+            return np.asfortranarray(a)
+        if mode == "view":
+            big = np.zeros((a.shape[0] + 2,) + a.shape[1:])
+            big[1:-1] = a
+            return big[1:-1]
+        if mode == "df":
+            return pd.DataFrame(a, columns=["c%d" % j for j in range(a.shape[1])])
+        return np.ascontiguousarray(a)
+    twin, _ = C.construct(name, variant)
+    det, _ = C.construct(name, variant)
+    ev = 0
+    drifted = False
+    for i in range(len(st)):
+        reref = i == 0 or i in scn.get("reref", (3, 6))
+        for d, private in ((twin, True), (det, False)):
+            x = as_mode(st[i][0])
+            before = copy.deepcopy(x)
+            C.seed_schedule(name, seed, i if not reref else -1 - i)
+            try:
+                if reref:
+                    d.set_reference(x)
+                else:
+                    feed(d, name, (x,), i, seed)
+            except Exception as e:
+                return ev + 1, True, "%s input raised %s: %s" % (mode, type(e).__name__, e)
+            if not private:
+                if not _same(x, before):
+                    return ev + 1, True, "%s modified the object passed to it (%s input) at step %d" % (
+                        "set_reference" if reref else "update", mode, i)
+                _scribble(x)
+        ev += 1
+        a, b = C.snapshot(twin, name), C.snapshot(det, name)
+        drifted = drifted or a[0] is not None
+        if a != b:
+            return ev, True, "caller-side overwrite of an array passed to %s (%s input, step %d; re-referenced at %r) changed the " \
+                             "output: %r vs %r for a twin given private copies" % ("set_reference" if reref else "update", mode, i,
+                                                                                   tuple(scn.get("reref", (3, 6))), b, a)
+    return ev, drifted, None
+
+
 def _same(a, b):
     if isinstance(a, pd.DataFrame):
         return a.equals(b)
@@ -793,7 +883,7 @@ CHECKS = {
     "lifecycle": check_lifecycle, "clean_slate": check_clean_slate, "set_reference": check_set_reference,
     "rejected_call": check_rejected_call, "containers": check_containers, "mixed_width": check_mixed_width, "agreement_only": check_agreement_only,
     "unused_args": check_unused_args, "threshold": check_threshold, "warning_threshold": check_warning_threshold,
-    "nndvi_alpha": check_nndvi_alpha, "row_order": check_row_order, "row_order_replay": check_row_order_replay, "row_order_large": check_row_order_large, "nnps_order": check_nnps_order, "no_alias": check_no_alias,
+    "nndvi_alpha": check_nndvi_alpha, "row_order": check_row_order, "row_order_replay": check_row_order_replay, "row_order_large": check_row_order_large, "row_order_coarse": check_row_order_coarse, "nnps_order": check_nnps_order, "no_alias": check_no_alias, "no_alias_reref": check_no_alias_reref,
 }
 
 REPLAY = '''import sys, warnings
